@@ -16,6 +16,14 @@ the server clock on an unmodified file gets 200 + body);  R11: undecodable
 request-path bytes reach the route as U+FFFD, which its disallowed-characters
 test rejects (WSGI constructor evaluated concretely on sample PATH_INFO
 values; W: /static/caf\\xe9.txt serves caf\\u00e9.txt).
+
+Wave 9: R12 = C09 R6 (Range decision table: a one-byte range `bytes=N-N` is
+valid) shared, because the 206 / 416 wiring starts from the pair Request.range
+hands out;  R13: Request.range_unit is the WHOLE text before the first '=' - a
+constant shortcut (`return 'bytes'`) only behind a test that includes the
+separator (`startswith('bytes=')`), never behind a prefix / substring test of
+the bare unit name - and the route compares the unit whole with 'bytes'
+(W: `Range: bytesx=1-3` answered 206 instead of 200 with the whole file).
 """
 
 from __future__ import annotations
@@ -1524,19 +1532,25 @@ def r13_range_unit_whole(run):
     def is_unit(e):
         if isinstance(e, ast.Attribute) and e.attr == 'range_unit':
             return True
+        if isinstance(e, ast.BoolOp) and isinstance(e.op, ast.Or):
+            rest = [v for v in e.values if not (isinstance(v, ast.Constant) and v.value in ('', None))]
+            return len(rest) == 1 and is_unit(rest[0])
         return isinstance(e, ast.Name) and e.id not in c.params() and bool(binds.get(e.id)) and all(is_unit(v) for v in binds[e.id])
 
     parents = {}
     for n in walk_no_nested(c.node):
         for ch in ast.iter_child_nodes(n):
             parents[id(ch)] = n
-    uses = [n for n in walk_no_nested(c.node) if is_unit(n) and isinstance(getattr(n, 'ctx', None), ast.Load)]
+    uses = [n for n in walk_no_nested(c.node) if isinstance(n, (ast.Name, ast.Attribute)) and isinstance(n.ctx, ast.Load) and is_unit(n)]
     reads_range = [n for n in walk_no_nested(c.node) if isinstance(n, ast.Attribute) and n.attr == 'range' and isinstance(n.ctx, ast.Load)]
     if not reads_range:
         raise AnchorError('%s: no read of <req>.range' % CALL)
     n_tests = 0
     for u in uses:
         par = parents.get(id(u))
+        while isinstance(par, ast.BoolOp) and isinstance(par.op, ast.Or) and all(
+                v is u or (isinstance(v, ast.Constant) and v.value in ('', None)) for v in par.values):
+            u, par = par, parents.get(id(par))          # `<unit> or ''`: the same text, '' when the header is missing
         if isinstance(par, ast.Assign) and u is par.value:
             continue                    # alias, followed by is_unit
         if isinstance(par, ast.Compare) and len(par.ops) == 1:
